@@ -146,6 +146,23 @@ def exhaustive(tier):
                             'llq': [0] * n2, 'lt': list(puq), 'luq': list(puq), 'lprefs': None,
                             'cls': 'two_student_sweep'}
                     yield {'inst': inst, 'pc': False, 'twopl': False, 'diff': False}
+    if tier == 'thorough':
+        # the complete universe of 2 students x 2 projects x 2 lecturers: every strict list
+        # shape, every project->lecturer map, every (lower, upper) quota pair up to 2, lecturer
+        # targets 0..3 under upper quotas 2 and 4, with and without -pc (294 912 instances)
+        lists = [[[1]], [[2]], [[1], [2]], [[2], [1]]]
+        quota = [(l, u) for u in (0, 1, 2) for l in range(0, u + 1)]
+        for p1, p2 in itertools.product(lists, lists):
+            for plec in ((1, 1), (1, 2), (2, 1), (2, 2)):
+                for (l1, u1), (l2, u2) in itertools.product(quota, quota):
+                    for t1, t2 in itertools.product((0, 1, 2, 3), (0, 1, 2, 3)):
+                        for lu1, lu2 in itertools.product((2, 4), (2, 4)):
+                            inst = {'na': 3, 'n1': 2, 'n2': 2, 'n3': 2, 'prefs': [p1, p2],
+                                    'plq': [l1, l2], 'puq': [u1, u2], 'plec': list(plec),
+                                    'llq': [0, 0], 'lt': [min(t1, lu1), min(t2, lu2)],
+                                    'luq': [lu1, lu2], 'lprefs': None, 'cls': 'tiny_universe'}
+                            for pc in (False, True):
+                                yield {'inst': inst, 'pc': pc, 'twopl': False, 'diff': False}
 
 
 def strategy(tier):
@@ -216,7 +233,7 @@ def run_case(case):
     o = refmodel.Oracle(inst, case['twopl'], case['pc'])
     valid = [M for M in o.assignments() if o.valid(M)]
     labels = ['na=%d' % inst['na'], 'twopl' if case['twopl'] else 'one_sided',
-              'cls=' + str(inst.get('cls')) if inst.get('cls') == 'two_student_sweep' else 'drawn',
+              'cls=' + str(inst.get('cls')) if inst.get('cls') in ('two_student_sweep', 'tiny_universe') else 'drawn',
               'pc' if case['pc'] else 'no_pc',
               'maxrank>n1' if o.maxrank > o.n1 else 'maxrank<=n1']
     if o.n2 >= 10:
